@@ -552,6 +552,48 @@ pub fn run(out: &mut Out, tier: &str, seed: u64, prop: &str) {
                     g.push(Term::VI(k, true, vec![lit.to_string()]));
                     groups.push(g);
                 } }
+                // WIDE nodes (nine and more edges: in-lists of exact versions, chains of `!=` on one string key) against every
+                // comparison at each of their values, both operand orders: any shortcut for large edge lists must stay pointwise
+                {
+                    let vals = ["3.6.1", "3.7.2", "3.8.3", "3.9.4", "3.10.5"];
+                    let svals = ["a", "b", "c", "d", "e"];
+                    let mut wide: Vec<(Term, Vec<Term>)> = Vec::new();
+                    for k in [1usize, 0] {
+                        let list: Vec<String> = vals.iter().map(|v| v.to_string()).collect();
+                        let others: Vec<Term> = vals.iter().flat_map(|v| (0..6).map(move |op| Term::V(k, op, v.to_string()))).collect();
+                        wide.push((Term::VI(k, false, list.clone()), others.clone()));
+                        wide.push((Term::VI(k, true, list[..4].to_vec()), others));
+                    }
+                    for k in [1usize, 12] {
+                        let chain = svals.iter().skip(1).fold(Term::S(k, 1, svals[0].into()), |acc, v| Term::and(acc, Term::S(k, 1, v.to_string())));
+                        let others: Vec<Term> = svals.iter().flat_map(|v| (0..6).map(move |op| Term::S(k, op, v.to_string()))).collect();
+                        wide.push((chain.clone(), others.clone()));
+                        wide.push((Term::not(chain), others));
+                    }
+                    for (w, others) in &wide {
+                        let Some(tw) = try_build(out, "C02", w) else { return };
+                        for (n, o) in others.iter().enumerate() {
+                            if !big && n % 2 == 1 { continue; }
+                            let Some(to) = try_build(out, "C02", o) else { return };
+                            let results: Vec<(MarkerTree, bool, bool)> = {
+                                let (mut a1, mut a2, mut o1, mut o2) = (to.clone(), tw.clone(), to.clone(), tw.clone());
+                                a1.and(tw.clone()); a2.and(to.clone()); o1.or(tw.clone()); o2.or(to.clone());
+                                vec![(a1, true, true), (a2, true, false), (o1, false, true), (o2, false, false)]
+                            };
+                            for e in region_envs(&mut rng, &[w, o], 6) {
+                                out.evaluations += 1;
+                                let (vo, vw) = (e.eval(&to), e.eval(&tw));
+                                out.stat("c02.wide_node_points");
+                                for (m, is_and, narrow_first) in &results {
+                                    let want = if *is_and { vo && vw } else { vo || vw };
+                                    if e.eval(m) != want || e.eval(&m.negate()) == want {
+                                        out.oracle_fail("C02", &format!("{} with a wide node is not pointwise ({} operand first): operands {vo}/{vw}, result {}, its negation {}", if *is_and { "and" } else { "or" }, if *narrow_first { "narrow" } else { "wide" }, e.eval(m), e.eval(&m.negate())), serde_json::json!({"a": o.line(), "b": w.line(), "env": e.line()}));
+                                    }
+                                }
+                            }
+                        }
+                    }
+                }
                 for g in &groups {
                     for (i, x) in g.iter().enumerate() { for (j, y) in g.iter().enumerate() {
                         if !big && (i * 3 + j) % 2 == 1 { continue; }
@@ -768,6 +810,12 @@ pub fn run(out: &mut Out, tier: &str, seed: u64, prop: &str) {
                     ("de morgan", Term::not(Term::and(t(a), t(b))), Term::or(Term::not(t(a)), Term::not(t(b)))),
                     ("double negation", Term::not(Term::not(t(a))), t(a)),
                     ("excluded middle", Term::or(t(a), Term::not(t(a))), Term::T),
+                    // restriction returns the canonical marker of the restricted function
+                    ("restriction by two extras at once / one after the other", Term::Rx(vec!["dev".into(), "test".into()], Box::new(t(a))), Term::Rx(vec!["dev".into()], Box::new(Term::Rx(vec!["test".into()], Box::new(t(a)))))),
+                    ("restriction removes a conjunction of the active extras", Term::Rx(vec!["dev".into(), "test".into()], Box::new(Term::and(Term::and(Term::X(false, "dev".into()), Term::X(false, "test".into())), t(a)))), Term::Rx(vec!["dev".into(), "test".into()], Box::new(t(a)))),
+                    ("restriction of `e1 and e2` by both is TRUE", Term::Rx(vec!["a".into(), "b".into()], Box::new(Term::and(Term::X(false, "a".into()), Term::X(false, "b".into())))), Term::T),
+                    ("restriction of `not e1 or not e2` by both is FALSE", Term::Rx(vec!["a".into(), "b".into()], Box::new(Term::or(Term::X(true, "a".into()), Term::X(true, "b".into())))), Term::F),
+                    ("restriction of `e1 and not e2 and m` by both is FALSE", Term::Rx(vec!["a".into(), "b".into()], Box::new(Term::and(Term::and(Term::X(false, "a".into()), Term::X(true, "b".into())), t(a)))), Term::F),
                     // requires-python surgery returns the canonical marker of the same function
                     ("complexify is conjunction with the range (upper bound)", Term::Cp(Bd::U, Bd::E("3.12".into()), Box::new(t(a))), Term::and(t(a), range_term(&Bd::U, &Bd::E("3.12".into())))),
                     ("complexify is conjunction with the range (both bounds)", Term::Cp(Bd::I("3.8".into()), Bd::I("3.11".into()), Box::new(t(a))), Term::and(t(a), range_term(&Bd::I("3.8".into()), &Bd::I("3.11".into())))),
@@ -1232,6 +1280,43 @@ pub fn run(out: &mut Out, tier: &str, seed: u64, prop: &str) {
                     let d = dump(&tree);
                     out.stat("c05.targeted_shapes");
                     items.push(Item { term: t, tree, dump: d });
+                }
+            }
+            // the public serde helpers for a marker FIELD (`marker::ser::is_empty` as skip_serializing_if, `::serialize` as
+            // serialize_with, read back with `default`): a field is skipped exactly for TRUE, and what is written reads back
+            {
+                #[derive(serde::Serialize, serde::Deserialize)]
+                struct Holder {
+                    name: String,
+                    #[serde(default, skip_serializing_if = "pep508_rs::marker::ser::is_empty", serialize_with = "pep508_rs::marker::ser::serialize")]
+                    marker: MarkerTree,
+                }
+                let mut probes: Vec<(String, MarkerTree)> = vec![("TRUE".into(), MarkerTree::TRUE), ("FALSE".into(), MarkerTree::FALSE)];
+                for t in ["os_name == 'posix' and os_name == 'nt'", "python_version < '0'", "python_full_version >= '3.8' or python_full_version < '3.8'", "extra == 'a' and extra != 'a'"] {
+                    if let Ok(m) = MarkerTree::from_str(t) { probes.push((t.to_string(), m)); }
+                }
+                for it in items.iter().take(if big { 300 } else { 80 }) { probes.push((it.term.line(), it.tree.clone())); }
+                for (label, m) in probes {
+                    out.evaluations += 1;
+                    let input = serde_json::json!({"marker": label, "helpers": "pep508_rs::marker::ser"});
+                    if pep508_rs::marker::ser::is_empty(&m) != m.is_true() {
+                        out.oracle_fail("C05", "marker::ser::is_empty does not hold exactly for TRUE (the only marker without text)", input.clone());
+                    }
+                    let h = Holder { name: "n".into(), marker: m.clone() };
+                    match catch_unwind(AssertUnwindSafe(|| serde_json::to_string(&h))) {
+                        Ok(Ok(j)) => match serde_json::from_str::<Holder>(&j) {
+                            Ok(back) => {
+                                // (FALSE and deprecated key spellings: by equivalence, as for Display — the property's carve-out)
+                                let d = dump(&m);
+                                let deprecated = d.split(' ').any(|t| matches!(t, "s:2" | "s:4" | "s:6" | "s:7" | "s:11" | "s:13") || ["in:2:", "in:4:", "in:6:", "in:7:", "in:11:", "in:13:", "ct:2:", "ct:4:", "ct:6:", "ct:7:", "ct:11:", "ct:13:"].iter().any(|p| t.starts_with(p)));
+                                let same = back.marker == m || ((m.is_false() || deprecated) && crate::req::marker_equiv(&back.marker, &m, 11));
+                                if !same { out.oracle_fail("C05", &format!("a marker field written with the marker::ser helpers reads back as another marker (JSON {j})"), input.clone()); }
+                            }
+                            Err(e) => out.oracle_fail("C05", &format!("a marker field written with the marker::ser helpers cannot be read back: {e} (JSON {j})"), input.clone()),
+                        },
+                        _ => out.oracle_fail("C05", "serializing a marker field with the marker::ser helpers fails / panics", input.clone()),
+                    }
+                    out.stat("c05.ser_helpers");
                 }
             }
             for it in &items {
